@@ -205,11 +205,11 @@ func TestVerif_C18_SM4Constants(t *testing.T) {
 			}
 		}
 	}
-	perm("com_amd64.s", "Shuffle", func(i int) byte { return byte(i&^3 | (3 - i&3)) })    // byte reversal within each 32-bit word
-	perm("gcm_amd64.s", "Shuffle1", func(i int) byte { return byte(i&8 | (7 - i&7)) })     // byte reversal within each 64-bit half
-	perm("gcm_amd64.s", "Shuffle2", func(i int) byte { return byte(15 - i) })              // full byte reversal
-	perm("gcm_amd64.s", "AND_MASK", func(i int) byte { return 0x0f })                      // low-nibble mask
-	perm("gcm_amd64.s", "LOWER_MASK", func(i int) byte {                                   // 4-bit bit reversal table
+	perm("com_amd64.s", "Shuffle", func(i int) byte { return byte(i&^3 | (3 - i&3)) }) // byte reversal within each 32-bit word
+	perm("gcm_amd64.s", "Shuffle1", func(i int) byte { return byte(i&8 | (7 - i&7)) }) // byte reversal within each 64-bit half
+	perm("gcm_amd64.s", "Shuffle2", func(i int) byte { return byte(15 - i) })          // full byte reversal
+	perm("gcm_amd64.s", "AND_MASK", func(i int) byte { return 0x0f })                  // low-nibble mask
+	perm("gcm_amd64.s", "LOWER_MASK", func(i int) byte {                               // 4-bit bit reversal table
 		return byte(i&1<<3 | i&2<<1 | i&4>>1 | i&8>>3)
 	})
 	if b := get("gcm_amd64.s", "GCM_POLY", 16); b != nil {
